@@ -238,7 +238,26 @@ func arrKinds() []arrKind {
 			func() (*array.Array, error) { return array.NewEmpty(structElt{}) },
 			func(v uint64) interface{} { return structOf(v) }})
 	}
+	// a struct whose encoded size (6 bytes) is not a power of two
+	{
+		conv := func(vals []uint64) []struct6 {
+			r := make([]struct6, len(vals))
+			for i, v := range vals {
+				r[i] = struct6{A: uint16(v), B: int32(v >> 16)}
+			}
+			return r
+		}
+		ks = append(ks, arrKind{"struct6", 6, nil, nil,
+			func(idx []int32, vals []uint64) (*array.Array, error) { return array.New(idx, conv(vals)) },
+			func() (*array.Array, error) { return array.NewEmpty(struct6{}) },
+			func(v uint64) interface{} { return struct6{A: uint16(v), B: int32(v >> 16)} }})
+	}
 	return ks
+}
+
+type struct6 struct {
+	A uint16
+	B int32
 }
 
 func maskW(v uint64, width int) uint64 {
@@ -280,6 +299,9 @@ func checkArr(w *h.Worker, k arrKind, a *arr, g *array.Array, ref map[int32]uint
 			wantB := refLE(want, k.width)
 			if k.name == "struct" {
 				wantB = structBytes(want)
+			}
+			if k.name == "struct6" {
+				wantB = refLE(want, 6) // uint16 then int32, little endian, packed
 			}
 			if ok2 != present || (present && !bytes.Equal(bs, wantB)) {
 				return fmt.Sprintf("%s: generic GetBytes(%d) = (%x,%v), want (%x,%v)", stage, i, bs, ok2, wantB, present)
@@ -516,7 +538,7 @@ func c16Value(index int32, pattern int, width int) uint64 {
 
 func runC16(r *h.Run) {
 	thorough := r.Tier == "thorough"
-	r.Rule = "every subset of the 16-position index universe {0,1,2,31,62,63,64,65,127,128,129,255,256,300,511,512} (65536 sets: dense, sparse, empty 64-bit words, single, empty) and of a 14-position universe reaching 2^20-1; element types U16 U32 U64 I16 I32 I64 and a fixed-size struct; values f(index,pattern) over the lane alphabet (3 patterns in thorough, 1 in quick), plus all 2^16 values in one-element arrays of the 16-bit types; probes: every index of the bitmap span (second universe: every universe index +-1 and every touched word boundary); typed Get, generic Array.Get and Base.GetBytes against map[int32]T, on the fresh arrays and after proto.Marshal/Unmarshal of both the typed and the generic array into both the typed type and array.NewEmpty(zero); invalid: every index sequence of length <= 4 over a 6-position universe and element slices longer or shorter by 1..3 => ErrIndexNotAscending / ErrIndexLen and a nil array. A state is a distinct (kind, index set, pattern); non-trivial = at least 2 elements"
+	r.Rule = "every subset of the 16-position index universe {0,1,2,31,62,63,64,65,127,128,129,255,256,300,511,512} (65536 sets: dense, sparse, empty 64-bit words, single, empty) and of a 14-position universe reaching 2^20-1; element types U16 U32 U64 I16 I32 I64, a fixed-size 8-byte struct and a 6-byte struct (encoded size not a power of two); values f(index,pattern) over the lane alphabet (3 patterns in thorough, 1 in quick), plus all 2^16 values in one-element arrays of the 16-bit types; probes: every index of the bitmap span (second universe: every universe index +-1 and every touched word boundary); typed Get, generic Array.Get and Base.GetBytes against map[int32]T, on the fresh arrays and after proto.Marshal/Unmarshal of both the typed and the generic array into both the typed type and array.NewEmpty(zero); invalid: every index sequence of length <= 4 over a 6-position universe and element slices longer or shorter by 1..3 => ErrIndexNotAscending / ErrIndexLen and a nil array. A state is a distinct (kind, index set, pattern); non-trivial = at least 2 elements"
 	r.Assumptions = []string{"(zero,false) is claimed within the bitmap span only; probing beyond the span is outside the statement"}
 	kinds := arrKinds()
 	patterns := 1
